@@ -42,6 +42,11 @@ ASSUMPTIONS = [
     "PJS-EQ: candidates differ in (type, name, defenses), so the library's structural == on assets coincides with identity",
     "objects are identified by identity (`is`) when the state is read back; no library object is ever repr'd",
     "next_id and _type_to_association are read directly (anchors of the property: derived indexes)",
+    "attacker ids need not be unique (the repository's own test adds two attackers with one id): the reference accepts "
+    "them and get_attacker_by_id / _to_dict()['attackers'] are then not compared (C07 reports the loss on saving)",
+    "an exception of an expected rejection may be of any type; AttributeError / TypeError / KeyError / RecursionError ... "
+    "from a VALID call or while the state is read back fail C05.no-crash. RecursionError always gets the signature "
+    "'structural-eq:RecursionError' (the library's == on assets/associations does not terminate on some cyclic models)",
 ]
 BUDGET_S = {"quick": 100, "thorough": 1500}
 CHUNK = 400
